@@ -10,6 +10,11 @@
 //   reload    config.Coordinator.Reload sequences with bad files / failing subscribers (CReload).
 //   malformed bytes: only the outcome class (never panic, never hang). A TEST, not a proof (see props/C17.json).
 //   raw       corpus witnesses (YAML text): outcome class only.
+//   concurrent real goroutines (no synctest): loaders loop config.Load while renderers loop Config.String() of an
+//             already loaded configuration full of canary secrets (what GET /api/v2/status does on every request)
+//             and a poller watches the process-wide switch commoncfg.MarshalSecretValue; a canary in any rendering,
+//             or the switch observed set, is a violation. Ties the assumption of render_noninterference that
+//             masking is a pure function of the value (no global unmasking switch flipped by Load).
 package c17
 
 import (
@@ -25,6 +30,8 @@ import (
 	"runtime"
 	"sort"
 	"strings"
+	"sync"
+	"sync/atomic"
 	"testing"
 	"time"
 
@@ -525,6 +532,10 @@ func (x *runner) loadCase(seed uint64) {
 	if res.class == "error" {
 		cs.Obs = "error:" + errKind(res.err) + ": " + res.err
 	}
+	if commoncfg.MarshalSecretValue {
+		x.violate("marshal-secret-value-set-during-load", "commoncfg.MarshalSecretValue is set after config.Load returned", cs)
+		commoncfg.MarshalSecretValue = false
+	}
 	x.run.Count("load_class", res.class)
 	if len(c.Faults) == 0 {
 		x.run.Count("faults", "none")
@@ -837,6 +848,165 @@ func (x *runner) reloadCase(seed uint64) {
 	x.run.Add(vh.App("CReload", vh.List(rj), vh.List(loads), vh.List(obs)), cs, true)
 }
 
+// ---- concurrent engine: reload || status rendering ----
+
+// liveYAML: the "running" configuration, every secret a canary.
+func liveYAML() string {
+	var sb strings.Builder
+	sb.WriteString("global:\n  smtp_smarthost: 'mail.example.org:25'\n  smtp_from: am@example.org\n")
+	for i, k := range []string{"smtp_auth_password", "slack_app_token", "opsgenie_api_key", "victorops_api_key", "telegram_bot_token", "wechat_api_secret", "rocketchat_token", "rocketchat_token_id"} {
+		fmt.Fprintf(&sb, "  %s: %sLIVEg%d\n", k, marker, i)
+	}
+	fmt.Fprintf(&sb, "  mattermost_webhook_url: 'https://%sLIVEgm.example/hook'\n", marker)
+	fmt.Fprintf(&sb, "  http_config: {basic_auth: {username: u, password: %sLIVEgh}}\n", marker)
+	sb.WriteString("route: {receiver: live}\nreceivers:\n- name: live\n")
+	fmt.Fprintf(&sb, "  webhook_configs: [{url: 'https://%sLIVEw.example/x', http_config: {authorization: {credentials: %sLIVEwa}}}]\n", marker, marker)
+	fmt.Fprintf(&sb, "  slack_configs: [{api_url: 'https://hooks.example/%sLIVEs', channel: '#a'}, {channel: '#b'}]\n", marker)
+	fmt.Fprintf(&sb, "  pagerduty_configs: [{routing_key: %sLIVEp, service_key: %sLIVEp2}]\n", marker, marker)
+	fmt.Fprintf(&sb, "  pushover_configs: [{user_key: %sLIVEu, token: %sLIVEt}]\n", marker, marker)
+	fmt.Fprintf(&sb, "  email_configs: [{to: a@b.example, auth_password: %sLIVEe}]\n", marker)
+	fmt.Fprintf(&sb, "  discord_configs: [{webhook_url: 'https://%sLIVEd.example/'}]\n", marker)
+	fmt.Fprintf(&sb, "  msteamsv2_configs: [{webhook_url: 'https://%sLIVEm.example/'}]\n", marker)
+	fmt.Fprintf(&sb, "  sns_configs: [{topic_arn: 'arn:aws:sns:us-east-2:1:t', sigv4: {region: r, access_key: AK, secret_key: %sLIVEk}}]\n", marker)
+	return sb.String()
+}
+
+// loaderYAMLs: what a reload may read while the status API is being served. The first ones have slack / msteamsv2
+// receivers WITHOUT their own http_config and a global http_config (the receiver loops copy the global one).
+func loaderYAMLs(r *vh.Rand) []string {
+	var hdr strings.Builder
+	for i := 0; i < 60; i++ {
+		fmt.Fprintf(&hdr, "X-H%d: {values: [v%d], secrets: [s%d]}, ", i, i, i)
+	}
+	ghttp := "global: {slack_api_url: 'https://hooks.example/g', http_config: {follow_redirects: false, proxy_url: 'http://p.example:3128', http_headers: {" + strings.TrimSuffix(hdr.String(), ", ") + "}}}\n"
+	many := func(kind, body string, n int) string {
+		return "  " + kind + "_configs: [" + strings.TrimSuffix(strings.Repeat(body+", ", n), ", ") + "]\n"
+	}
+	out := []string{
+		ghttp + "route: {receiver: a}\nreceivers:\n- name: a\n" + many("slack", "{channel: '#x'}", 12),
+		ghttp + "route: {receiver: a}\nreceivers:\n- name: a\n" + many("msteamsv2", "{webhook_url: 'https://t.example/x'}", 12),
+		"global: {slack_api_url: 'https://hooks.example/g'}\nroute: {receiver: a}\nreceivers:\n- name: a\n" + many("slack", "{channel: '#x'}", 4) + many("msteamsv2", "{webhook_url: 'https://t.example/x'}", 4),
+		"global: {slack_api_url: 'https://hooks.example/g', http_config: {basic_auth: {username: u, password: pw}}}\nroute: {receiver: a}\nreceivers:\n- name: a\n" + many("slack", "{channel: '#x'}", 6) + "- name: b\n" + many("msteamsv2", "{webhook_url: 'https://t.example/x', http_config: {follow_redirects: true}}", 3),
+		"route: {receiver: a, routes: [null]}\nreceivers: [{name: a}]\n", // a rejected reload
+	}
+	for len(out) < 14 { // a few generated ones of every shape (accepted or rejected)
+		out = append(out, genCfg(r.U64(), "C", false).YAML())
+	}
+	return out
+}
+
+func (x *runner) concurrentStream(r *vh.Rand, budget time.Duration) {
+	cs := Case{Kind: "concurrent"}
+	lr := load(liveYAML())
+	if lr.class != "ok" {
+		x.violate("concurrent-live-config-rejected", "the live configuration of the concurrent engine does not load: "+lr.class+" "+lr.err+lr.panicV, cs)
+		return
+	}
+	live := lr.cfg
+	if out := live.String(); strings.Contains(out, marker) || strings.Count(out, amcommoncfg.SecretToken) < 15 {
+		x.violate("secret-printed", "sequential Config.String() of the live configuration shows a canary (or masks fewer than 15 fields)", cs)
+		return
+	}
+	texts := loaderYAMLs(r)
+	var loads, loadPanics, renders, polls, renderHits, pollHits atomic.Int64
+	var mu sync.Mutex
+	var sample, panicSample string
+	stop := make(chan struct{})
+	var wg sync.WaitGroup
+	nLoaders, nRenderers := 2, 3
+	for i := 0; i < nLoaders; i++ {
+		wg.Add(1)
+		go func(i int) {
+			defer wg.Done()
+			for k := i; ; k++ {
+				select {
+				case <-stop:
+					return
+				default:
+				}
+				func() {
+					defer func() {
+						if p := recover(); p != nil {
+							loadPanics.Add(1)
+							mu.Lock()
+							panicSample = fmt.Sprint(p)
+							mu.Unlock()
+						}
+					}()
+					c, err := config.Load(texts[k%len(texts)])
+					if err == nil && k%5 == 0 {
+						_ = c.String() // a loader that logs / hashes what it loaded
+					}
+				}()
+				loads.Add(1)
+			}
+		}(i)
+	}
+	for i := 0; i < nRenderers; i++ {
+		wg.Add(1)
+		go func() {
+			defer wg.Done()
+			for {
+				select {
+				case <-stop:
+					return
+				default:
+				}
+				out := live.String() // api/v2 getStatusHandler: original := api.alertmanagerConfig.String()
+				renders.Add(1)
+				if j := strings.Index(out, marker); j >= 0 {
+					if renderHits.Add(1) == 1 {
+						mu.Lock()
+						sample = out[max(0, j-50):min(len(out), j+30)]
+						mu.Unlock()
+					}
+				}
+			}
+		}()
+	}
+	wg.Add(1)
+	go func() { // the invariant itself: outside Load the switch is never set
+		defer wg.Done()
+		for n := 0; ; n++ {
+			select {
+			case <-stop:
+				return
+			default:
+			}
+			if commoncfg.MarshalSecretValue {
+				pollHits.Add(1)
+			}
+			polls.Add(1)
+			if n%64 == 0 {
+				runtime.Gosched()
+			}
+		}
+	}()
+	time.Sleep(budget)
+	close(stop)
+	wg.Wait()
+	after := commoncfg.MarshalSecretValue
+	x.run.Rep.Distribution["concurrent"] = map[string]any{"budget_ms": budget.Milliseconds(), "loaders": nLoaders, "renderers": nRenderers,
+		"loads": loads.Load(), "renderings": renders.Load(), "switch_polls": polls.Load(), "renderings_with_canary": renderHits.Load(),
+		"polls_with_switch_set": pollHits.Load(), "load_panics": loadPanics.Load(), "gomaxprocs": runtime.GOMAXPROCS(0)}
+	cs.Obs = fmt.Sprintf("loads=%d renderings=%d polls=%d canary-renderings=%d switch-set-polls=%d", loads.Load(), renders.Load(), polls.Load(), renderHits.Load(), pollHits.Load())
+	if renderHits.Load() > 0 {
+		x.violate("secret-printed-during-concurrent-load", fmt.Sprintf("Config.String() of the running configuration printed a secret while config.Load ran concurrently (%d of %d renderings): ...%s...", renderHits.Load(), renders.Load(), sample), cs)
+	}
+	if pollHits.Load() > 0 || after {
+		x.violate("marshal-secret-value-set-during-load", fmt.Sprintf("commoncfg.MarshalSecretValue (process-wide unmasking switch) observed set while config.Load ran (%d of %d polls; set after the run: %v)", pollHits.Load(), polls.Load(), after), cs)
+	}
+	if loadPanics.Load() > 0 {
+		x.violate("load-panics:concurrent", "config.Load panics when run concurrently with Config.String(): "+panicSample, cs)
+	}
+	if loads.Load() < 20 || renders.Load() < 20 {
+		x.violate("concurrent-engine-starved", "the concurrent engine made too little progress to judge: "+cs.Obs, cs)
+	}
+	if lost := live.String(); strings.Contains(lost, marker) {
+		x.violate("secret-printed", "Config.String() shows a canary after the concurrent loads finished", cs)
+	}
+}
+
 // ---- malformed bytes (a test of totality, not a proof) ----
 
 func (x *runner) malformed(name string, b []byte) {
@@ -981,6 +1151,8 @@ func TestCheck(t *testing.T) {
 			x.roundtripCase(c.Seed)
 		case "reload":
 			x.reloadCase(c.Seed)
+		case "concurrent":
+			x.concurrentStream(vh.NewRand(env.Seed), 5*time.Second)
 		case "malformed":
 			b, _ := base64.StdEncoding.DecodeString(c.B64)
 			x.malformed("replayed", b)
@@ -1021,6 +1193,11 @@ func TestCheck(t *testing.T) {
 			x.reloadCase(r.U64())
 		}
 		x.malformedStream(r.Fork(), env.N(2500, 10))
+		cbudget := 2500 * time.Millisecond
+		if env.Tier == "thorough" {
+			cbudget = 10 * time.Second
+		}
+		x.concurrentStream(r.Fork(), cbudget)
 		// which secret-typed field paths were actually set at least once
 		total := secretTypePaths(reflect.TypeOf(config.Config{}), "", 0, map[reflect.Type]int{})
 		covered := 0
